@@ -619,6 +619,17 @@ class Interp:
                 return Closure(r.node, Env(), r.module, self, cls=r.cls, name=f"{obj.name}.{attr}")
             if isinstance(r, ast.AST):
                 return self.eval(r, Env(), obj.module)
+            if attr == "__new__":
+                # no __new__ in the repository MRO: object.__new__
+                def object_new(cls, *a, **k):
+                    if isinstance(cls, ModelledClass):
+                        cls = cls.info
+                    o = Obj(cls.name, __class__=cls)
+                    if getattr(self, "on_instantiate", None) is not None:
+                        self.on_instantiate(o, cls)
+                    return o
+
+                return object_new
             raise Unsupported(f"class attribute {obj.name}.{attr}")
         if isinstance(obj, (tuple, list, dict, str, set, frozenset)):
             tn = next((n for n in ("tuple", "list", "dict", "str", "set", "frozenset") if isinstance(obj, __builtins__[n] if isinstance(__builtins__, dict) else getattr(__builtins__, n))), type(obj).__name__)
@@ -904,6 +915,9 @@ class Interp:
         try:
             return _CMPOPS[op](a, b)
         except TypeError as ex:
+            if _plain(a) and _plain(b):
+                # concrete Python values: the comparison raises at run time as well
+                raise LiftRaise(f"TypeError: {ex}", node)
             raise Unsupported(f"comparison {norm(node)}: {ex}")
 
     def e_IfExp(self, e, env, mod):
@@ -1095,6 +1109,14 @@ def _b_len(x):
             return x.attrs["__len__"]
         raise Unsupported(f"len() of {x.kind}")
     return len(x)
+
+
+def _plain(x):
+    if x is None or isinstance(x, (bool, int, float, Fraction, str, complex)):
+        return True
+    if isinstance(x, (tuple, list)):
+        return all(_plain(y) for y in x)
+    return False
 
 
 def _const_of(x):
